@@ -92,7 +92,7 @@ void h_event_post(void)
 	wakeups = g_task_reg + g_raw_posts + g_sends;
 	__CPROVER_assert(!g_lock_held && g_lock_acq == 1, "[C08] the destination's event-list mutex is taken once and released");
 	if (!was_queued) {
-		__CPROVER_assert(v_dst.events_pending.prev == &v_ev.list && v_ev.list.next == &v_dst.events_pending, "[C08] an event that is not queued is appended to the owner's pending list: the post is not lost");
+		__CPROVER_assert(v_dst.events_pending.prev == &v_ev.list && v_ev.list.next == &v_dst.events_pending, "[C08,C11,C12,C13] an event that is not queued is appended to the owner's pending list: the post is not lost");
 		old_tail = (verif_in.shape == 0) ? &v_dst.events_pending : &v_tail;
 		__CPROVER_assert(v_ev.list.prev == old_tail && old_tail->next == &v_ev.list, "[C08] appended behind what was pending when the lock was held");
 	} else {
@@ -101,13 +101,13 @@ void h_event_post(void)
 	}
 	if (!was_queued && was_empty) {
 		__CPROVER_assert(wakeups == 1 || (verif_in.same_thread && verif_in.local_registered && wakeups == 0),
-				 "[C08] the post that makes the pending list non-empty wakes the owner (the emptiness test and the insertion belong to one critical section): no lost wake-up");
+				 "[C08,C11,C12,C13,C15] the post that makes the pending list non-empty wakes the owner (the emptiness test and the insertion belong to one critical section): no lost wake-up");
 		if (verif_in.same_thread)
 			__CPROVER_assert(g_raw_posts == 0 && g_sends == 0 && g_task_reg == (verif_in.local_registered ? 0 : 1), "[C08] same-thread posts use a task instead of a kick");
 		else if (verif_in.use_raw)
-			__CPROVER_assert(g_raw_posts == 1 && g_raw_arg == &v_dst.events_kick && g_sends == 0 && g_task_reg == 0, "[C08] raw-event transport: the owner's kick descriptor is posted");
+			__CPROVER_assert(g_raw_posts == 1 && g_raw_arg == &v_dst.events_kick && g_sends == 0 && g_task_reg == 0, "[C08,C15,C11,C12,C13] raw-event transport: the OWNER's kick descriptor is posted (not the poster's)");
 		else
-			__CPROVER_assert(g_sends == 1 && g_send_arg == &v_dst && g_raw_posts == 0 && g_task_reg == 0, "[C08] epoll transport: the owner's one-shot kick is armed");
+			__CPROVER_assert(g_sends == 1 && g_send_arg == &v_dst && g_raw_posts == 0 && g_task_reg == 0, "[C08,C15,C11,C12,C13] epoll transport: the OWNER's one-shot kick is armed");
 	} else {
 		__CPROVER_assert(wakeups == 0, "[C08] no wake-up when the list was already non-empty (the owner is already due to run it) or nothing was queued");
 	}
